@@ -207,7 +207,9 @@ func Lit(v Val) string {
 }
 
 // strAlphabet: case folding is unarguable on it.
-var strWords = []string{"a", "b", "c", "A", "B", "ab", "AB", "aB", "abc", "ABC", "1", "12", "23", "3", "123", "b2", "B2", "ca", "cb", ""}
+var strWords = []string{"a", "b", "c", "A", "B", "ab", "AB", "aB", "abc", "ABC", "1", "12", "23", "3", "123", "b2", "B2", "ca", "cb", "",
+	// accented twins of "a" and "ca": equal to them under utf8mb4_0900_ai_ci, one byte longer
+	"á", "cá"}
 
 // GenVal draws a value for column c; small domain so that collisions happen.
 func GenVal(T *kernel.Tape, c *Col, allowNull bool) Val {
@@ -226,7 +228,7 @@ func GenVal(T *kernel.Tape, c *Col, allowNull bool) Val {
 	}
 	for {
 		w := strWords[T.Draw(len(strWords))]
-		if len(w) <= c.Len {
+		if len([]rune(w)) <= c.Len {
 			return w
 		}
 	}
